@@ -345,6 +345,44 @@ theorem peer_address_traffic_refreshes_liveness_witness :
     (tick (step s (.udp (.v4 [127, 0, 0, 1] 1)) (.v4 [198, 51, 100, 7] 6666) .data).1 []).1.state = .disconnected := by
   decide
 
+/-! ### known finding: the TCP stream table is written before authentication
+
+Full statement one would want (an unauthenticated TCP connection has no influence on where the agent sends for
+the selected pair): `∀ t L G X, resolveTcp (acceptTcp t L X) G L = resolveTcp t G L`. It is FALSE for the code
+(`tcp_stream_table_overwrite_witness`, reproduced on the implementation as
+`preauth:tcp-stream-table:{listen-loop,attach-demuxed}:…`, status `known`); what holds is `_partial`. -/
+
+/-- the genuine peer `G` connected to listener `L` and was nominated; a stranger `X` merely opens a TCP
+connection to `L`: `resolve_socket` for the pair (L, G) now yields the stranger's connection. -/
+theorem tcp_stream_table_overwrite_witness :
+    let L : Addr := .v4 [127, 0, 0, 1] 5000
+    let G : Addr := .v4 [203, 0, 113, 5] 40000
+    let X : Addr := .v4 [198, 51, 100, 66] 6666
+    ¬ (resolveTcp (acceptTcp (acceptTcp [] L G) L X) G L = resolveTcp (acceptTcp [] L G) G L) ∧
+    resolveTcp (acceptTcp (acceptTcp [] L G) L X) G L = some X := by
+  decide
+
+/-- what holds: a connection accepted on ANOTHER key (another listener, an outbound connection) does not
+change what is resolved for a pair whose peer's stream is in the table -/
+theorem tcp_stream_table_partial (t : TcpTable) (K L G X : Addr) (hk : K ≠ L)
+    (hg : (L, G) ∈ t) :
+    resolveTcp (acceptTcp t K X) G L = some G := by
+  have hmem : (L, G) ∈ t.filter (fun e => e.1 ≠ K) := by
+    simp only [List.mem_filter, ne_eq, decide_not, Bool.not_eq_eq_eq_not, Bool.not_true, decide_eq_false_iff_not]
+    exact ⟨hg, fun e => hk e.symm⟩
+  unfold resolveTcp acceptTcp storeTcpStream
+  have hfind : ∃ e, ((K, X) :: t.filter (fun e => e.1 ≠ K)).find? (fun e => e.2 = G) = some e := by
+    cases h : ((K, X) :: t.filter (fun e => e.1 ≠ K)).find? (fun e => e.2 = G) with
+    | some e => exact ⟨e, rfl⟩
+    | none =>
+      have := List.find?_eq_none.mp h (L, G) (List.mem_cons_of_mem _ hmem)
+      simp at this
+  obtain ⟨e, he⟩ := hfind
+  rw [he]
+  have := List.find?_some he
+  simp only [decide_eq_true_eq] at this
+  simp [this]
+
 /-- the credential check is sound: it accepts only datagrams whose FIRST USERNAME is `<ufrag>:…` and whose FIRST
 MESSAGE-INTEGRITY is the HMAC under the local password (`Credentials`; see its comment for the one respect
 in which this is weaker than RFC 8445 §7.3: USERNAME need not precede MESSAGE-INTEGRITY) -/
